@@ -1,4 +1,5 @@
 import MpsVerif.Model.IterQueue
+import MpsVerif.Legacy.IterQueue
 import MpsVerif.Core.Validate
 import MpsVerif.Drv.Util
 /-! Trace-validation driver for the `IterableQueue` model (`drv iterq`).
@@ -46,10 +47,10 @@ def candsAll (e : Act) : List Act :=
 
 def cands (fine : Bool) (e : Act) : List Act := (candsAll e).filter (fun a => label fine a == some e)
 
-def sys (fine : Bool) (c : Cfg) : LSys State Act Act :=
-  { step := step c, label := label fine, taus := fun _ => tauActs fine c, cands := fun _ e => cands fine e }
+def sys (fine : Bool) (c : Cfg) (legacy : Bool := false) : LSys State Act Act :=
+  { step := if legacy then Legacy.step c else step c, label := label fine, taus := fun _ => tauActs fine c, cands := fun _ e => cands fine e }
 
-theorem sys_wf (fine : Bool) (c : Cfg) : WF (sys fine c) := by
+theorem sys_wf (fine : Bool) (c : Cfg) (legacy : Bool) : WF (sys fine c legacy) := by
   constructor
   · intro s a ha
     simp only [sys, tauActs, List.mem_filter] at ha
@@ -67,6 +68,13 @@ structure Ev where
 
 def pcOf (s : State) (j : Nat) : Option CPc := (s.cons[j]?).map (·.pc)
 
+/-- The harness lets the clock advance only when no thread is enabled, so at a `tick` no actor is at a
+    pc from which it could run on; states in which one is are dropped (dropping states can only make
+    the validator reject, never accept wrongly). -/
+def quiescent (s : State) : Bool :=
+  s.cons.all (fun a => match a.pc with | .chk2 | .give | .test | .unl _ => false | _ => true) &&
+  s.sups.all (fun a => match a.pc with | .pe1 => false | _ => true)
+
 def parseEv (name : String) (a : List Nat) : Option Ev :=
   let yes : State → Bool := fun _ => true
   match name, a with
@@ -82,7 +90,7 @@ def parseEv (name : String) (a : List Nat) : Option Ev :=
   | "rdeq", [] => some ⟨.rGet, yes⟩
   | "rstop", [] => some ⟨.rStop, yes⟩
   | "setstop", [] => some ⟨.setStop, yes⟩
-  | "tick", [] => some ⟨.tick, yes⟩
+  | "tick", [] => some ⟨.tick, quiescent⟩
   | "sbeg", [i] => some ⟨.sEndBeg i, yes⟩
   | "sapp", [i] => some ⟨.sApply i, yes⟩
   | "take", [j] => some ⟨.cTake j, yes⟩
@@ -119,6 +127,7 @@ structure St where
   id : String := ""
   cfg : Cfg := mkCfg []
   fine : Bool := false
+  legacy : Bool := false     -- validate against Legacy/IterQueue (pinned code, defect F14) instead
   fuel : Nat := 0
   ss : List State := []
   k : Nat := 0
@@ -137,7 +146,8 @@ partial def loop (h : IO.FS.Stream) (st : St) : IO Unit := do
     let c := mkCfg (Drv.kvs rest)
     let fine := Drv.getN (Drv.kvs rest) "fine" == 1
     let fuel := if fine then 3 * c.n + c.m + 2 else 8 * c.n + 3 * c.m + 2
-    loop h { id := id, cfg := c, fine := fine, fuel := fuel, ss := [init c], k := 0, dead := false }
+    let legacy := Drv.getN (Drv.kvs rest) "legacy" == 1
+    loop h { id := id, cfg := c, fine := fine, legacy := legacy, fuel := fuel, ss := [init c], k := 0, dead := false }
   | "e" :: name :: rest =>
     if st.dead then loop h st else
     match parseEv name (rest.filterMap String.toNat?) with
@@ -145,9 +155,9 @@ partial def loop (h : IO.FS.Stream) (st : St) : IO Unit := do
       IO.println s!"REJECT {st.id} {st.k} bad-event {name} {rest}"
       loop h { st with dead := true }
     | some ev =>
-      let ss' := vstep (sys st.fine st.cfg) st.fuel Ev.act Ev.chk st.ss ev
+      let ss' := vstep (sys st.fine st.cfg st.legacy) st.fuel Ev.act Ev.chk st.ss ev
       if ss'.isEmpty then
-        let cl := tauClose (sys st.fine st.cfg) st.fuel st.ss
+        let cl := tauClose (sys st.fine st.cfg st.legacy) st.fuel st.ss
         let d := match cl.head? with | some s => descr s | none => "-"
         IO.println s!"REJECT {st.id} {st.k} event `{name} {rest}` not enabled in any of {cl.length} compatible model states; e.g. {d}"
         loop h { st with dead := true }
@@ -155,17 +165,21 @@ partial def loop (h : IO.FS.Stream) (st : St) : IO Unit := do
   | "probe" :: rest =>
     if st.dead then loop h st else
     let kv := Drv.kvs rest
-    let cl := tauClose (sys st.fine st.cfg) st.fuel st.ss
+    let cl := tauClose (sys st.fine st.cfg st.legacy) st.fuel st.ss
     let ss' := cl.filter (agrees kv)
     if ss'.isEmpty then
       let d := match cl.head? with | some s => descr s | none => "-"
       IO.println s!"MISMATCH {st.id} {st.k} probe {rest} matches none of {cl.length} compatible model states; e.g. {d}"
       loop h { st with dead := true }
     else loop h { st with ss := ss' }
+  | "dump" :: _ =>
+    for s in st.ss do
+      IO.println s!"STATE {descr s} cons={repr (s.cons.map fun a => (a.pc, a.t0, a.tw))} sups={repr (s.sups.map fun a => (a.pc, a.t0, a.tw))} rtw={s.rtw}"
+    loop h st
   | "end" :: rest =>
     if st.dead then loop h st else
     let kv := Drv.kvs rest
-    let fin := tauClose (sys st.fine st.cfg) st.fuel st.ss
+    let fin := tauClose (sys st.fine st.cfg st.legacy) st.fuel st.ss
     let partialRun := Drv.getN kv "partial" == 1
     let good := fin.filter (fun s => partialRun || agrees kv s)
     if good.isEmpty then
